@@ -1675,7 +1675,7 @@ class _OrDefault(ast.NodeTransformer):
                     ast.fix_missing_locations(nst)
                 out.extend(self._block(new))
                 continue
-            if isinstance(st, (ast.Return, ast.Assign)) and isinstance(v, ast.BoolOp) and isinstance(v.op, ast.Or) and len(v.values) == 2 and isinstance(v.values[0], ast.Call) and not isinstance(v.values[1], ast.Await):
+            if isinstance(st, (ast.Return, ast.Assign)) and isinstance(v, ast.BoolOp) and isinstance(v.op, ast.Or) and len(v.values) == 2 and isinstance(v.values[0], ast.Call) and isinstance(v.values[0].func, ast.Attribute) and v.values[0].func.attr == "get" and not isinstance(v.values[1], ast.Await):
                 first, second = v.values
                 if isinstance(st, ast.Return):
                     self.n += 1
